@@ -325,6 +325,9 @@ func rtEventPhy(c *ctx, val M, phy *lorawan.PHYPayload) M {
 // streamPHY is ONE PHYPayload variable that every byte string of a run is also decoded into, the way a receive loop
 // re-uses its frame variable: what it re-encodes to must be the string just received, whatever it held before.
 var streamPHY lorawan.PHYPayload
+var streamKept lorawan.PHYPayload
+var streamKeptBytes []byte
+var streamKeptOK bool
 
 func bytesEvent(c *ctx, b []byte) M {
 	ev := M{"ev": "bytes", "bytes": bs(b)}
@@ -344,6 +347,21 @@ func bytesEvent(c *ctx, b []byte) M {
 		})
 		ev["serr"] = sres
 		ev["sre"] = bs(sre)
+		// what a caller KEPT of the previous frame decoded into that variable (a copy of the value, e.g. appended to a
+		// list) must still be that frame after the variable was decoded into again
+		if streamKeptOK {
+			var kre []byte
+			kres, _ := observeFast(func() error {
+				var err error
+				kre, err = streamKept.MarshalBinary()
+				return err
+			})
+			ev["kerr"], ev["kre"], ev["kbytes"] = kres, bs(kre), bs(streamKeptBytes)
+		}
+		streamKeptOK = sres == ""
+		if streamKeptOK {
+			streamKept, streamKeptBytes = streamPHY, append([]byte{}, b...)
+		}
 	}
 	ev["intact"] = string(in) == string(b)
 	// base64 path
